@@ -161,7 +161,10 @@ class SimPopen:
         self._emit('stderr', stderr, fd_err, err_b)
         # in-situ probes and scripted file-system actions of the child
         from . import observers
-        for name in b.get('observe', ()):
+        names = list(b.get('observe', ()))
+        if sim.plan.get('observe_sbx') and 'sbx' not in names:
+            names.append('sbx')
+        for name in names:
             rec['obs'][name] = observers.observe(name, sim, rec)
         for act in b.get('actions', ()):
             observers.perform(act, sim, rec)
